@@ -822,6 +822,7 @@ func runC09(r *Run) {
 		r.Inconclusive(localProblem)
 	} else {
 		defer os.RemoveAll(localRoot)
+		fams = append(fams, &Family{Name: "broken-callees", N: len(c09BrokenCallees) * r.Q(10, 200), Do: func(c *Case) { c09BrokenCase(c, "broken-callees", localRoot) }})
 		fams = append(fams, &Family{Name: "local-specs", N: r.Q(400, 8000), Do: func(c *Case) { c09LocalCase(c, "local-specs", localRoot) }})
 	}
 	fams = append(fams, &Family{Name: "global-table", N: r.Q(8, 40), Serial: true, Do: func(c *Case) { c09GlobalCase(c, "global-table") }})
@@ -876,6 +877,19 @@ func runC09(r *Run) {
 		}
 		if r.Counter("sibling_targets_with_diagnostics") < 40 {
 			r.Inconclusive("too few observed keys with diagnostics of their own")
+		}
+	}
+	if localProblem == "" && (only == "" || only == "broken-callees") {
+		if r.SetLen("broken_callees") < len(c09BrokenCallees) || r.SetLen("broken_callees_reported") < len(c09BrokenCallees)-1 {
+			r.Inconclusive("not every kind of broken callee was used and reported")
+		}
+		if r.SetLen("broken_users_per_callee") < 3 {
+			r.Inconclusive("broken callees were not used by 1, 2 and 3 jobs")
+		}
+		for _, k := range []string{"workflow_dependant_before_first_user", "workflow_dependant_only_after", "workflow_no_dependant", "action_dependant_before_first_user", "action_dependant_only_after", "action_no_dependant"} {
+			if r.Counter("broken_"+k) < int64(r.Q(40, 800)) {
+				r.Inconclusive("too few orderings of the class " + k)
+			}
 		}
 	}
 	if localProblem == "" && (only == "" || only == "local-specs") {
